@@ -88,9 +88,10 @@ def run_one(tape):
       if item.get('att') and item['att'][0] != item['att'][1]:
         viols.append({'clause': 'live_view_attachments_differ', 'details': {'rendered': sorted(item['att'][0]),
                                                                            'in_memory': sorted(item['att'][1])}})
-      if item.get('nlogs') and item['nlogs'][0] != item['nlogs'][1]:
+      # (a logging thread may be between its two appends when the first count is taken: -1)
+      if item.get('nlogs') and not (item['nlogs'][1] - (1 if spec.get('chatter') else 0) <= item['nlogs'][0] <= item['nlogs'][2]):
         viols.append({'clause': 'live_view_log_records_differ', 'details': {'rendered': item['nlogs'][0],
-                                                                           'in_memory': item['nlogs'][1]}})
+                                                                           'in_memory': list(item['nlogs'][1:])}})
       if viols:
         break
     # ---- final record: every list represented, cached == fresh
@@ -104,6 +105,13 @@ def run_one(tape):
         elif len(bt[key]) != len(getattr(rec, attr_)):
           viols.append({'clause': 'record_list_length_differs', 'details': {'list': key, 'rendered': len(bt[key]),
                                                                            'in_memory': len(getattr(rec, attr_))}})
+      # log records: same entries in the same order
+      if not viols and 'log_records' in bt:
+        for i, (ld, l) in enumerate(zip(bt['log_records'], rec.log_records)):
+          if ld.get('message') != l.message or ld.get('logger_name') != l.logger_name or ld.get('level') != l.level:
+            viols.append({'clause': 'cached_log_record_differs', 'details': {
+                'index': i, 'rendered': str(ld.get('message'))[:50], 'in_memory': l.message[:50]}})
+            break
       for pd, p in zip(bt.get('phases', []), rec.phases):
         if pd.get('name') != p.name or pd.get('outcome') != (p.outcome.name if p.outcome else None):
           viols.append({'clause': 'cached_phase_differs', 'details': {'phase': p.name, 'rendered_outcome': pd.get('outcome')}})
